@@ -1491,6 +1491,13 @@ impl Runner for ServiceRunner {
                 } else {
                     return noop(out);
                 };
+                // A response attributed to another node address than the request went to is something
+                // the real handler never hands over; the service declares it unreachable
+                // (`debug_unreachable!`), and this harness is built with the crate's assertions active.
+                if cfg!(debug_assertions) && from != contact_addr {
+                    stats.bump("s.skipped-response-from-foreign-node-address");
+                    return noop(out);
+                }
                 let f = self.insts[&x].filter;
                 let head = format!("sresp {} r{} {} {}", x, k, hex::encode(from.node_id.raw()), sock_num(&from.socket_addr));
                 match (*kind, args) {
@@ -1900,6 +1907,22 @@ fn gen_c12(rng: &mut Rng, ops: &mut Vec<String>, stats: &mut Stats) {
                 peers.push(p);
             }
         }
+    }
+    if fill && peers.len() >= 4 && rng.chance(2, 3) {
+        // the nodes inserted last (one of them waits in the pending slot, if there is one) are
+        // reported by a lookup with a newer record: contactable, or not (then the stored / pending
+        // entry has to go)
+        stats.bump("gen.c12.fill-discovered-newer");
+        let last = peers[peers.len() - 1].seed;
+        let tid = flip_target(&id_of_seed(last), 256, rng);
+        ops.push(format!("squery A {}", hex::encode(tid)));
+        let mut items: Vec<String> = Vec::new();
+        for q in peers.iter().rev().take(4) {
+            let sh = if rng.chance(1, 2) { contact_shape(mode, rng).to_string() } else { "n".to_string() };
+            items.push(format!("k{}:{}:{}:0", q.seed, q.seq + rng.range(1, 2), sh));
+        }
+        ops.push(format!("sresp A #q ok nodes 1 {}", items.join(",")));
+        ops.push("stable A".into());
     }
     let npeers = rng.range(4, 9);
     for _ in 0..npeers {
